@@ -292,6 +292,12 @@ def main() -> int:
             {"script": make_script(SCRIPTS["lcd_i2c"], "COM7", False, "atmelmegaavr", "nano_every", 1), "second": make_script(SCRIPTS["plain"], "COM7", False, "atmelmegaavr", "nano_every", 1),
              "faults": {}, "platform": "atmelmegaavr", "board": "nano_every", "port": "COM7", "valid_pair": True, "upload_effective": False, "script_name": "lcd->plain",
              "pair": "valid_every", "upload_arg": False}]
+    # ... and rewritten to a text of the SAME length with the file's time stamps restored (an editor or a copy that preserves them)
+    same_a = make_script(SCRIPTS["plain"], "COM3", False, "atmelavr", "uno", 0)
+    same_b = same_a.replace("Led(13)", "Led(12)").replace("sleep(500)", "sleep(250)")
+    assert len(same_a) == len(same_b) and same_a != same_b
+    hist.append({"script": same_a, "second": same_b, "second_same_stat": True, "faults": {}, "platform": "atmelavr", "board": "uno", "port": "COM3", "valid_pair": True,
+                 "upload_effective": False, "script_name": "plain->plain'(same size, same mtime)", "pair": "valid_uno", "upload_arg": False})
     for cfg, st, out in run_cases(run_child, hist):
         if st != "ok" or "harness_error" in out:
             rep.inconclusive_because(f"history child failed: {(out if st != 'ok' else out['harness_error'])[-200:]}")
